@@ -8,6 +8,8 @@ from hypothesis import strategies as st
 
 from vlib.core import Case, CaseTimeout, Facet, Refused, Violation, guarded
 
+# thorough-tier budgets of every facet are multiplied by this factor (sized for ~5-8 min on 16 cores)
+THOROUGH_SCALE = 4
 LEVEL = "exploration"
 RULE = ("DINO: batch 1-8, views 1-3 (x as tensor or list of views), grid h,w in [2,16], ratio range 0<=a<=b<=0.9, mask_prob in "
         "[0,1], min_num_patches, aspect bounds, seed -> ctx['mask'] bool (batch*views,h,w), non-empty masks <= "
